@@ -251,7 +251,7 @@ func drawWiring(t *tape.Tape) (Wiring, engine.Options) {
 	w := Wiring(t.Choose(int(NumWirings)))
 	o := DefaultOptions(w)
 	if t.Chance(1, 3) {
-		o.Noise = []uint{0, 10, 500}[t.Choose(3)]
+		o.Noise = []uint{0, 1, 2, 10, 500}[t.Choose(5)] // (1 and 2: the smallest ranges a generator can be asked for)
 	}
 	if w == Morlock && t.Chance(1, 4) {
 		o.Hash = 0
@@ -366,7 +366,7 @@ func SessionC04(t *tape.Tape) *core.RunResult {
 				g.depthOpt = v
 				return fmt.Sprintf("setoption name Depth value %d", v)
 			case 2:
-				return fmt.Sprintf("setoption name Noise value %d", []int{0, 10, 300}[t.Choose(3)])
+				return fmt.Sprintf("setoption name Noise value %d", []int{0, 1, 3, 10, 300}[t.Choose(5)])
 			default:
 				return fmt.Sprintf("setoption name OwnBook value %v", t.Chance(1, 2))
 			}
